@@ -239,11 +239,16 @@ def run(ck: Checker):
     from .C02 import check_sites
     check_sites(ck, R='C10.IDX', only_function='Circuit.connect_circuit')
     ck.floor('C10.IDX', 1)
+    ck.rule('C10.FOLD', 'connect_circuit folded on instances of the repository\'s own Circuit class over a bounded family of compositions (both directions, internal / repeated base connectors, partial connector lists, naming and prefix options; other.top_sort replaced by an oracle) and compared with the documented composition: attached circuit untouched, well-formed result, inputs, outputs, function of every kept output; each wrapper equals connect_circuit with its documented connector lists (distinct other_connectors only: repeated ones under right_connect are finding F11 / C10.UNIQ)')
+    from .. import compose_fold
+    compose_fold.fold_connect(ck, 'C10.FOLD', 'C10.BLOCK')
+    compose_fold.fold_wrappers(ck, 'C10.FOLD')
+    ck.floor('C10.FOLD', 15)
     ck.rule('C02.COPY', 'blocks and circuits own their lists: no store into Circuit state and no Block(...) argument aliases a caller-visible list, so a later composition cannot change an earlier block (shared with C02)')
     from .C02 import check_copy
     check_copy(ck, eff)
     ck.floor('C02.COPY', 15)
-    ck.assume('truth-table equality of the composition and Block.into_circuit round trip are not decided beyond these structural clauses')
+    ck.assume('repeated composition (a third circuit attached to a composed one) and compositions beyond the folded family are decided only through the structural clauses')
 
 
 def _same_comps(parts, want):
